@@ -457,7 +457,7 @@ func (w *worker) runC05(c *Case, pw, dw string) error {
 }
 
 // allFlags are the deviation flags of the model (Cfg); "P" is all of them.
-const allFlags = "esncwurlz"
+const allFlags = "esncowurlzmtfghda"
 
 func without(f byte) string {
 	s := strings.ReplaceAll(allFlags, string(f), "")
@@ -472,11 +472,19 @@ var flagSlug = map[byte]string{
 	's': "descent-siblings",
 	'n': "locate-negative-end",
 	'c': "locate-start-clamp",
+	'o': "locate-root",
 	'w': "walk-descent-self",
 	'u': "getnodes-union-nil",
 	'r': "getnodes-filter-order",
 	'l': "firstnode-last",
 	'z': "getnodes-filter-null",
+	'm': "typed-map-members",
+	't': "typed-object-filter",
+	'f': "first-typed-slice",
+	'g': "first-typed-wildcard",
+	'h': "has-typed-map",
+	'd': "has-typed-descent",
+	'a': "walk-typed-array",
 }
 
 func (w *worker) explainC05(c *Case, pw, dw string, r Rep, specVals []string, ordered bool) (string, string, error) {
@@ -592,8 +600,8 @@ func modelOut(ev, ans string) out {
 	case "gets":
 		return out{vals: valuesOf(splitVals(ans))}
 	case "first", "firstnode":
-		if ans == "none" {
-			return out{}
+		if ans == "none" || ev == "firstnode" && ans == "some n" {
+			return out{} // FirstNode returns nil for "nothing" as well as for a null element
 		}
 		return out{found: true, val: strings.TrimPrefix(ans, "some ")}
 	case "has":
@@ -715,9 +723,9 @@ func (w *worker) runC11(c *Case, pw, dw string) error {
 					rep.Count("skipped.locate_typed_step0", 1)
 					continue
 				}
-				o = goLocate(x, data, c.t, simple)
+				o = goLocate(x, data, c.t, r.OK == "struct")
 			case "walk":
-				o = goWalk(x, data, c.t, simple)
+				o = goWalk(x, data, c.t, r.OK == "struct")
 			case "nodes":
 				if r != repGen {
 					continue
@@ -748,19 +756,55 @@ func (w *worker) runC11(c *Case, pw, dw string) error {
 		rep.Sample(map[string]any{"path": c.p.String(), "data": dw, "get": G.String(), "locate": runs[3].o.String(), "model_locate": ans[3]})
 	}
 	rep.Count(fmt.Sprintf("results.%d", min(len(G.vals), 4)), 1)
+	unordG := !ordSimple && c.p.descentAfterFrag() // Go Get itself depends on the map order here (descentSiblings)
 	for i, ru := range runs {
 		m := modelOut(qs[i].op, ans[i])
 		desc := map[string]any{"rep": ru.r.String(), "evaluator": ru.ev, "impl": ru.o.String(), "impl_found": ru.o.found, "impl_val": ru.o.val,
 			"model": ans[i], "get_simple": G.String()}
-		tie := tied(ru.ev, ru.o, m, ru.ord)
+		class := ru.ev + ":" + ru.r.String()
+		tie := tied(ru.ev, ru.o, m, ru.ord && !(ru.ev == "locate" && ru.r.typed())) // Locate visits struct fields back to front
+		ok, why := agrees(ru.ev, ru.o, G.vals, ordSimple)
+		if (!tie || !ok) && (unordG || !ru.ord && c.p.descentAfterFrag()) && ru.o.panic == "" && ru.o.bad == "" {
+			// results that depend on Go's map order through the descentSiblings deviation: compare with the
+			// model without that flag — nothing may be reported that the repaired evaluator would not report
+			full, err := w.ask(c, pw, dw, []query{{qs[i].op, qs[i].rep, without('s')}, {"get", "any.map", without('s')}})
+			if err != nil {
+				return err
+			}
+			fm, fg := modelOut(qs[i].op, full[0]), splitVals(full[1])
+			within := false
+			switch ru.ev {
+			case "get", "nodes":
+				within = len(bagMinus(ru.o.vals, fm.vals)) == 0
+			case "first", "firstnode":
+				within = !ru.o.found || contains(fg, ru.o.val)
+			case "has":
+				within = !ru.o.found || fm.found
+			case "locate", "walk":
+				within = tie && len(bagMinus(G.vals, valuesOf(ru.o.vals))) == 0
+			}
+			if within {
+				if !ok {
+					knownFinding(*prop+"-descent-siblings", class+":flags=s:map-order", "evaluator does not agree with Get (descent after a fragment, map order decides): "+why, c, desc)
+				}
+				continue
+			}
+		}
+		if id := unmodelled(ru.ev, ru.r, c.p); id != "" {
+			// a listed deviation whose effect (a stale variable, a missing stack marker) the model does not
+			// reproduce: no tie in this class; a disagreement with Get is that known finding
+			rep.Count("unmodelled."+id, 1)
+			if !ok {
+				knownFinding(id, class+":unmodelled", "evaluator does not agree with Get: "+why, c, desc)
+			}
+			continue
+		}
 		if !tie {
 			finding("disagreement", "model-"+ru.ev+":"+ru.r.String(), "the evaluator and its model differ", c, desc)
 		}
-		ok, why := agrees(ru.ev, ru.o, G.vals, ordSimple)
 		if ok {
 			continue
 		}
-		class := ru.ev + ":" + ru.r.String()
 		if !tie {
 			finding("violation", class, "evaluator does not agree with Get: "+why, c, desc)
 			continue
@@ -776,6 +820,22 @@ func (w *worker) runC11(c *Case, pw, dw string) error {
 		}
 	}
 	return nil
+}
+
+// unmodelled names the known finding for (evaluator, representation, path) classes in which the code's
+// behaviour depends on state the model does not carry.
+func unmodelled(ev string, r Rep, p Path) string {
+	switch {
+	case ev == "firstnode" && p.hasIntUnion():
+		// node.go FirstNode, Union: `v` keeps whatever an earlier fragment or member left in it when an
+		// index member is out of range, and that stale value is returned or pushed
+		return "C11-firstnode-union"
+	case ev == "first" && r.AK == "indexed" && p.has('d'):
+		// get.go FirstFound, Descent on an Indexed: the node is not put back and no markers are pushed, so
+		// the descent degenerates to "the container elements of the node"
+		return "C11-first-indexed-descent"
+	}
+	return ""
 }
 
 // explainC11 decides whether a disagreement between an evaluator and Get is one of the listed
